@@ -15,6 +15,7 @@ import os
 import random
 import shutil
 import tempfile
+import time
 
 from ..core import Check, fresh_repo_imports, seed
 from ..tlcrun import run_many, gen_cfg, cleanup_gen
@@ -23,13 +24,16 @@ from .. import par
 PID = "X05"
 _BASE = None          # temporary directory of this run (created and removed by run())
 _K = None             # loader classes, built once per process
+_LOOP = None          # (pid, event loop) of this process
 
-# how the Gets of one history are issued: (modes cycled over the Gets, kinds cycled over the Gets)
+# how the Gets of one history are issued: (modes, kinds, namespace carriers), each cycled over the Gets of the history.
+# A namespaced request carries its namespace as a keyword argument, in the render context's globals, or both (the keyword
+# wins over another namespace "nx" in the context); include / render can only use the context.
 VARIANTS = {
-    "sync": (("sync",), ("direct",)),
-    "async": (("async",), ("direct",)),
-    "mixed-tags": (("sync", "async"), ("include", "direct", "render")),
-    "mixed-tags2": (("async", "sync"), ("render", "include", "direct")),
+    "sync": (("sync",), ("direct",), ("kwarg", "context", "both")),
+    "async": (("async",), ("direct",), ("context", "both", "kwarg")),
+    "mixed-tags": (("sync", "async"), ("include", "direct", "render"), ("context", "kwarg", "context", "both")),
+    "mixed-tags2": (("async", "sync"), ("render", "include", "direct"), ("context", "context", "both", "kwarg")),
 }
 
 
@@ -101,8 +105,9 @@ class World:
 
     def __init__(self, b):
         from liquid import Environment
-        self.dir = tempfile.mkdtemp(prefix="h-", dir=_BASE)
-        self.dicts, self.dirs = {}, {}
+        # one directory per worker process, reused by every history it replays (emptied by close(); the loaders are new each time)
+        self.dir = os.path.join(_BASE, f"p{os.getpid()}")
+        self.dicts, self.dirs, self.files = {}, {}, set()
         self.clock = 1_000_000_000
         self.kw = dict(auto_reload=b["auto"], namespace_key="ns" if b["nskey"] else "", capacity=b["cap"])
         self.loader = self._build(b["tree"], root=True)
@@ -141,7 +146,9 @@ class World:
             self._store_dict(store)[key] = _text(store, key, ver)
             return
         p = os.path.join(self._store_dir(store), key)
-        os.makedirs(os.path.dirname(p), exist_ok=True)
+        if p not in self.files:
+            os.makedirs(os.path.dirname(p), exist_ok=True)
+            self.files.add(p)
         with open(p, "w") as f:
             f.write(_text(store, key, ver))
         self.clock += 1000                      # strictly increasing, whole seconds: never depends on the wall clock
@@ -158,7 +165,11 @@ class World:
         return key if store.startswith("M") else os.path.join(self._store_dir(store), key)
 
     def close(self):
-        shutil.rmtree(self.dir, ignore_errors=True)
+        for p in self.files:
+            try:
+                os.unlink(p)
+            except FileNotFoundError:
+                pass
 
     # ---- requests ---------------------------------------------------------------------------------------------------------
     async def _get_async(self, name, glob, ctx, kwargs, tagsrc):
@@ -167,10 +178,12 @@ class World:
         t = await self.env.get_template_async(name, context=ctx, **kwargs)
         return t, await t.render_async()
 
-    def get(self, s, mode, kind, loop):
+    def get(self, s, mode, kind, via, loop):
         from liquid import RenderContext
         from liquid.exceptions import TemplateNotFoundError
-        name, via, ns = s["name"], s["via"], s["ns"]
+        name, ns = s["name"], s["ns"]
+        if ns == "none":
+            via = "none"
         kwargs, ctx, glob, tagsrc = {}, None, None, None
         if kind in ("include", "render") and via in ("none", "context"):
             tagsrc = "{% " + kind + " '" + name + "' %}"
@@ -191,13 +204,13 @@ class World:
             else:
                 t, out = loop.run_until_complete(self._get_async(name, glob, ctx, kwargs, tagsrc))
         except TemplateNotFoundError:
-            return {"found": False, "store": "", "key": "", "ver": 0, "kind": kind}
+            return {"found": False, "store": "", "key": "", "ver": 0, "kind": kind, "via": via}
         except Exception as e:      # noqa: BLE001
-            return {"exc": type(e).__name__ + ": " + str(e)[:120], "kind": kind}
+            return {"exc": type(e).__name__ + ": " + str(e)[:120], "kind": kind, "via": via}
         parts = out.split("|")
         if len(parts) != 3 or not parts[2].isdigit():
-            return {"exc": "unreadable content " + repr(out[:60]), "kind": kind}
-        o = {"found": True, "store": parts[0], "key": parts[1], "ver": int(parts[2]), "kind": kind}
+            return {"exc": "unreadable content " + repr(out[:60]), "kind": kind, "via": via}
+        o = {"found": True, "store": parts[0], "key": parts[1], "ver": int(parts[2]), "kind": kind, "via": via}
         if t is not None:
             o["tname"], o["tpath"] = t.name, str(t.path)
         return o
@@ -210,9 +223,9 @@ def _same(o, a):
 def replay_variant(b, variant):
     """None if every Get agrees with the specification; otherwise a description of the first disagreement.
     Second value: True when the real loader took the other admissible branch of an unspecified situation (judging stops there)."""
-    modes, kinds = VARIANTS[variant]
+    modes, kinds, vias = VARIANTS[variant]
     w = World(b)
-    loop = asyncio.new_event_loop() if "async" in modes else None
+    loop = _loop() if "async" in modes else None
     try:
         g = 0
         for i, s in enumerate(b["steps"]):
@@ -224,9 +237,9 @@ def replay_variant(b, variant):
             elif s["op"] == "delete":
                 w.delete(s["store"], s["key"])
             else:
-                mode, kind = modes[g % len(modes)], kinds[g % len(kinds)]
+                mode, kind, via = modes[g % len(modes)], kinds[g % len(kinds)], vias[g % len(vias)]
                 g += 1
-                o = w.get(s, mode, kind, loop)
+                o = w.get(s, mode, kind, via, loop)
                 why = None
                 if "exc" in o:
                     why = "an exception other than TemplateNotFoundError"
@@ -244,15 +257,21 @@ def replay_variant(b, variant):
                     elif o["tname"] != os.path.basename(o["key"]):
                         why = "template.name is not the file name of its origin"
                 if why:
-                    return {"step": i, "why": why, "observed": o, "mode": mode, "kind": o.get("kind", kind), "how": s["how"],
+                    return {"step": i, "why": why, "observed": o, "mode": mode, "kind": o.get("kind", kind), "via": o.get("via"), "how": s["how"],
                             "admissible": s["adm"], "dirs": dict(w.dirs)}, False
                 if not _same(o, s["mech"]):
                     return None, True
         return None, False
     finally:
-        if loop is not None:
-            loop.close()
         w.close()
+
+
+def _loop():
+    """One event loop per worker process (as an application has), so the executor threads the file-system loader uses are reused."""
+    global _LOOP
+    if _LOOP is None or _LOOP[0] != os.getpid():
+        _LOOP = (os.getpid(), asyncio.new_event_loop())
+    return _LOOP[1]
 
 
 def replay_one(job):
@@ -264,58 +283,13 @@ def replay_one(job):
     return out
 
 
-# ---- the family -----------------------------------------------------------------------------------------------------------------
-NAMES2 = '{"a", "a.liquid"}'
-NAMES3 = '{"a", "a.liquid", "b"}'
-NAMES_TXT = '{"a", "a.liquid", "a.txt"}'
-
-
-def _cfg(comp, caching=False, auto=True, nskey=False, cap=1, L=3, names=NAMES2, pops='{"empty", "full"}', maxver=2):
-    t = lambda x: "TRUE" if x else "FALSE"      # noqa: E731
-    return dict(Comp=comp, Caching=t(caching), Auto=t(auto), NSKey=t(nskey), Cap=cap, Names=names, Pops=pops, MaxVer=maxver, MaxLen=L)
-
-
-def configs(tier):
-    q = tier == "quick"
-    out = []
-    # non-caching compositions: precedence, default extension, nesting, the inert inner cache of the docs' example
-    for comp in ("fs2", "fs2noext", "dd", "dfs", "fsdfs", "nested", "nestedlast", "overlay"):
-        out.append(_cfg(comp, L=3 if q else 4, pops='{"empty", "full", "low"}'))
-    out.append(_cfg("fs3", L=3 if q else 4, names=NAMES_TXT, pops='{"empty", "low"}'))
-    for comp in ("nsfs", "nsstrict", "nschoice"):
-        out.append(_cfg(comp, nskey=True, L=3 if q else 4))
-    # caching roots
-    if q:
-        out += [
-            _cfg("dict", True, True, cap=1, L=4), _cfg("dd", True, True, cap=1, L=4),
-            _cfg("fs2", True, True, cap=1, L=4), _cfg("fs2", True, False, cap=1, L=4), _cfg("fs2", True, True, nskey=True, cap=2, L=3),
-            _cfg("fs2", True, False, nskey=True, cap=2, L=3), _cfg("fs2noext", True, True, cap=2, L=3),
-            _cfg("dfs", True, True, cap=1, L=4), _cfg("dfs", True, False, cap=2, L=3),
-            _cfg("fsdfs", True, True, cap=2, L=3), _cfg("nested", True, True, cap=2, L=3), _cfg("nestedlast", True, True, cap=1, L=3),
-            _cfg("nestedlast", True, False, cap=1, L=3),
-            _cfg("nsfs", True, True, nskey=True, cap=2, L=3), _cfg("nsfs", True, False, nskey=True, cap=1, L=3),
-            _cfg("nsstrict", True, True, nskey=True, cap=1, L=3), _cfg("nschoice", True, True, nskey=True, cap=2, L=3),
-        ]
-    else:
-        for comp in ("dict", "dd", "fs2", "fs2noext", "dfs", "fsdfs", "nested", "nestedlast"):
-            for auto in (True, False):
-                for cap in (1, 2):
-                    out.append(_cfg(comp, True, auto, cap=cap, L=4 if comp in ("fsdfs", "nested") else 5))
-        for comp in ("fs2", "dfs", "nestedlast"):
-            for auto in (True, False):
-                out.append(_cfg(comp, True, auto, nskey=True, cap=2, L=4))
-        for comp in ("nsfs", "nsstrict", "nschoice"):
-            for auto in (True, False):
-                for cap in (1, 2):
-                    out.append(_cfg(comp, True, auto, nskey=True, cap=cap, L=4))
-        out.append(_cfg("fs2", True, False, cap=2, L=5, names=NAMES3, pops='{"full"}'))       # LRU order with three keys
-        out.append(_cfg("fs3", True, True, cap=1, L=4, names=NAMES_TXT, pops='{"empty", "low"}'))
-    return out
+# ---- the family (defined in LoaderChain.tla: Quick / Thorough; a run explores the configurations i with i % Parts = Part) -----
+PARTS = {"quick": 2, "thorough": 6}
 
 
 def _shape(b):
     """Class of a history for stratified sampling: its length and the kinds / outcomes of its last three operations."""
-    return (len(b["steps"]),) + tuple((s["op"], s.get("via"), s.get("how"), s.get("name")) for s in b["steps"][-3:])
+    return (len(b["steps"]),) + tuple((s["op"], s.get("ns"), s.get("how"), s.get("name")) for s in b["steps"][-3:])
 
 
 def _stratified(beh, rnd, per_class):
@@ -346,30 +320,40 @@ def run(tier: str) -> int:
                       "namespace_key, capacity 1-2), names {a, a.liquid[, a.txt, b]}, namespace by keyword / context / both / absent, "
                       "starting from empty / full / lowest-store-only populations; one shortest history per state, replayed sync, async and "
                       "with alternating modes through include / render tags. distinct = (configuration, history)")
-    cfgs = configs(tier)
+    parts = PARTS[tier]
     jobs = []
     try:
-        for i, c in enumerate(cfgs):
-            jobs.append(("LoaderChain", gen_cfg("cfg/LoaderChain.tmpl", c, f"x05_{i}"), dict(workers=1, timeout=3000)))
-        results = run_many(jobs, parallel=14)
+        for i in range(parts):
+            jobs.append(("LoaderChain", gen_cfg("cfg/LoaderChain.tmpl", dict(Family=tier, Part=i, Parts=parts), f"x05_{i}"),
+                         dict(workers=1, timeout=3000)))
+        t0 = time.time()
+        results = run_many(jobs, parallel=parts)
+        ck.cov["tlc_wall_s"] = round(time.time() - t0, 1)
     finally:
         cleanup_gen()
     work = []
     variants = ["sync", "async", "mixed-tags"] if tier == "quick" else list(VARIANTS)
     per_class = 4 if tier == "quick" else 40
-    for c, r in zip(cfgs, results):
-        ck.tlc("LoaderChain " + json.dumps(c, sort_keys=True), r)
+    for i, r in enumerate(results):
+        ck.tlc(f"LoaderChain {tier} part {i}/{parts}", r)
         if r.violated:
-            ck.fail(f"LoaderChain.tla {r.violated} violated in the model", {"cfg": c, "tlc": r.out[-3000:]})
+            ck.fail(f"LoaderChain.tla {r.violated} violated in the model", {"family": tier, "part": i, "tlc": r.out[-3000:]})
             continue
-        for b in _stratified(r.emitted, rnd, per_class):
-            work.append((b, variants))
+        by_cfg = {}
+        for b in r.emitted:
+            by_cfg.setdefault((b["comp"], b["tree"]["caching"], b["auto"], b["nskey"], b["cap"], b["len"]), []).append(b)
+        for key in sorted(by_cfg, key=str):
+            for b in _stratified(by_cfg[key], rnd, per_class):
+                work.append((b, variants))
+    t0 = time.time()
     _BASE = tempfile.mkdtemp(prefix="x05-", dir="/tmp")
     try:
         res = par.pmap(replay_one, work, chunk=16)
     finally:
         shutil.rmtree(_BASE, ignore_errors=True)
         _BASE = None
+    ck.cov["replay_wall_s"] = round(time.time() - t0, 1)
+    ck.cov["configurations"] = len({(b["comp"], b["tree"]["caching"], b["auto"], b["nskey"], b["cap"], b["len"]) for b, _ in work})
     hows, diverged = {}, 0
     for (b, _), rr in zip(work, res):
         gets = [s for s in b["steps"] if s["op"] == "get"]
